@@ -302,7 +302,19 @@ def tag_diff(case, f):
     # the row dtype and hence value type / error depends on consolidation (C15 restricts its own
     # domain to where the function is defined)
     if name == 'reduce' and any(b.dtype.kind not in 'biufc' for b in case['rec']['blocks']):
-        return 'reduction-over-non-numeric-columns-depends-on-layout'
+        cols = gen.block_columns(case['rec']['blocks'])
+        axis = case['op']['args']['axis']
+        if axis == 1 or f.kind in ('layout-raise-class', 'layout-raise-vs-value', 'layout-kind'):
+            return 'reduction-over-non-numeric-columns-depends-on-layout'
+        # axis 0: only a difference located at a non-numeric column is explained by this finding
+        import re
+        mm = re.search(r'result\[(\d+),(\d+)\]', f.detail)
+        if mm is not None:
+            q = int(mm.group(1)) if case['op']['args']['fn'] not in ('cumsum', 'cumprod') else int(mm.group(2))
+            if q < len(cols) and cols[q].dtype.kind not in 'biufc':
+                return 'reduction-over-non-numeric-columns-depends-on-layout'
+        elif f.kind == 'layout-dtype':
+            return 'reduction-over-non-numeric-columns-depends-on-layout'
     return None
 
 
